@@ -123,7 +123,7 @@ def fn_cfg(name, N, rng, cplx):
     if name in ('arcovar', 'modcovar', 'arcovar_marple', 'modcovar_marple'):
         return {'order': int(rng.integers(1, min(N // 4, 8)))}
     if name == 'arma_estimate':
-        P = int(rng.integers(1, 5)); Q = int(rng.integers(1, 4)); return {'P': P, 'Q': Q, 'lag': int(rng.integers(max(2 * P, Q) + 2, max(2 * P, Q) + 8))}   # lag >= 2P: see _estimators.default_cfg
+        P = int(rng.integers(1, 5)); Q = int(rng.integers(1, 4)); lo = max(2 * P, Q) + 2; return {'P': P, 'Q': Q, 'lag': int(rng.integers(lo, max(lo, min(lo + 6, N - 2 * P + Q)) + 1))}   # lag >= 2P: see _estimators.default_cfg
     if name == 'ma':
         Q = int(rng.integers(1, 4)); return {'Q': Q, 'M': int(rng.integers(Q + 2, Q + 10))}
     if name == 'minvar':
